@@ -2508,7 +2508,7 @@ template< size_t L> inline
    int FixedString< L>::partCompareImpl( size_t pos1, size_t count1,
       const char* str, size_t len2) const noexcept
 {
-   if (pos1 >= mLength)
+   if (pos1 > mLength)
       return (len2 == 0) ? 0 : 1;
 
    const size_t  use_len = (count1 > mLength - pos1) ? (mLength - pos1) : count1;
